@@ -110,6 +110,24 @@ def clauses(case, d, prev=None):
             bad.append("ran-past-limit")      # an earlier cycle end already reached start+L
     if d["raised"].startswith("other:") or d["raised"] == "kbint":
         bad.append("unexpected-exception-from-do:" + d["raised"].split(":")[-1])
+    # "done is True only if every doer had already completed": a run that ends done=True has force-closed nobody, except doers
+    # (and what is below them) that some remove() call of the program names
+    if d["done"] and raised == "-":
+        named = set()
+        allspecs = S.all_specs(S.expand_star(case))
+        for sp, _, _ in allspecs:
+            if sp[0] == "leaf":
+                for ops, _ in sp[4]:
+                    for op in ops:
+                        if op[0] == "remove":
+                            named |= set(op[1])
+                        elif op[0] == "xremove":
+                            named |= set(op[1][1:])
+        desc = S.descendants(case)
+        for j in list(named):
+            named |= desc.get(j, set())
+        if any(e[1] == "cease" and e[0] not in named for e in tr):
+            bad.append("done-true-although-a-doer-nobody-removed-was-force-closed")
     # done flags
     want = expected_flags(case, d, prev)
     spec = S.spec_index(case)[0]
@@ -159,13 +177,14 @@ def ulp_triples():
 
 class C05(S.SchedCheck):
     pid = "C05"
+    ways = True
     props_mod = "HioModel.Props.C05"
     design_ref = "DESIGN.md §5 C05"
     technique = ("Lean 4 theorems over the shared scheduler model (induction on the main loop of Doist.do with tyme = iterated tick), "
                  "differential run against hio.base.doing; stop cycle and flags recomputed independently with Python float arithmetic")
     level_text = ('Lean theorems for every program/tock/start/limit/fuel over an abstract time type (only + and a decidable <=; tyme = start + tock + ... + tock literally as the floats do): tyme_is_iterated_tick (unconditional), no_limit_done, done_right_after_emptying_cycle, mid_cycles_deque_nonempty, limit_stop_not_past, limit_stop_reached, done_iff_empty_at_stop (emptiness tested before the limit), enter_sets_done_false, forced_close_sets_no_flag (+ _all, final_exit, remove, abort variants), return_flag_true_only_if_truthy, flag_true_is_justified (every flag-true event directly follows the exit/exitEnd of that doer, or follows `recur` of that id plus exactly the events of one exception-free cycle of a scheduler with that id that left its deque empty = the own self.done = self.recur() assignment of a DoDoer), flag_true_is_justified_weak. Several runs on one Doist object (model HioModel/Sched/Runs.lean: a later do()/ado() inherits the tyme and the sticky limit and nothing else): later_run_as_fresh, run_depends_only_on_carried_tyme; a quarter of the cases are sequences of 2-4 do/ado calls on one Doist with fresh or reused doers, oracle applied per run. F07 (limit=0 treated as no limit) was repaired on fix/sched. Known finding C05-K1: an always-DoDoer keeps done=True from its own recur() when force-closed (the model predicts it; flag_true_is_justified has the matching second disjunct).')
     level_note = ('Trusted: as C01; float + and <= of CPython and Lean agree (exercised bit-for-bit by the correspondence, non-dyadic tocks and limits included); abs() of the limit is applied by the harness before the model sees it.')
-    profiles = ("time", "plain", "mixed", "faults", "ops", "lastop")
+    profiles = ("time", "plain", "mixed", "faults", "ops", "lastop", "xext")
     rule = ("3/4 single runs, 1/4 sequences of 2-4 do()/ado() calls on ONE Doist (tyme/limit given or kept, doers fresh or reused, runs that complete / hit the limit / raise / are interrupted); single runs: as C01 plus op/fault-free timing programs; limits {None, 0, tock/2, tock, 2.5 tock, 3 tock, 0.3, 1.0, -2 tock, 7 tock, 12 tock}, starts {0,1,2.5,0.3}, tocks {1/32,0.1,0.25,0.5,1}.  "
             "non-trivial = >=12 events and (limit given or a doer returned a value); distinct by request line")
 
@@ -190,6 +209,20 @@ class C05(S.SchedCheck):
         yield from super().generate(rng, n - k, tier)
         for _ in range(k):
             yield S.gen_runs(rng)
+        # remove() of doers that have ALREADY completed, called on a sibling DoDoer from outside its pass (nothing to close):
+        # the doers still running there must go on; the run ends done=True only after they completed
+        y = ([], ("yield", 0.0))
+        for _ in range(max(10, n // 50)):
+            t = rng.choice(S.TOCKS)
+            short = [("leaf", 11 + q, rng.choice(S.SHAPES), "ok", [y] * rng.choice([0, 1])) for q in range(rng.choice([1, 2]))]
+            longk = [("leaf", 15 + q, rng.choice(S.SHAPES), "ok", [y] * rng.choice([7, 9])) for q in range(rng.choice([1, 2]))]
+            g = ("group", 10, rng.choice([0.0, 0.0, t]), False, short + longk if rng.random() < 0.5 else longk + short, [])
+            x = ("leaf", 20, rng.choice([sh for sh in S.SHAPES if sh != "plain"]), "ok",
+                 [y] * rng.choice([2, 3, 4]) + [([("xremove", [10] + [k[1] for k in short])], ("yield", 0.0))] + [y] * rng.choice([1, 6]))
+            outer = [g, x]
+            if rng.random() < 0.3:
+                outer = [("group", 30, 0.0, False, outer, [])]
+            yield ("run", t, rng.choice(S.STARTS), rng.choice([None, None, 40 * t]), [], outer)
         # real=True under a scripted wall clock: one pass overruns by more than a tock at every cycle position; the run must
         # still end at the cycle whose end TYME reaches start + limit (the model is the same: tyme is virtual)
         for _ in range(max(12, n // 40)):
